@@ -281,6 +281,99 @@ Fixpoint interp_value (s : str) : option str :=
     else option_map (cons c) (interp_value t)
   end.
 
+(* ------------------------------------------------------------------ opa-fmt / use-rego-v1 *)
+
+(* pkg/fixer/fixes/fmt.go.  Unlike the three text fixes the Fmt fix CARRIES STATE: Fix has a pointer
+   receiver and writes into f.OPAFmtOpts (format.Opts), and the fixer registers ONE instance per rule
+   name for a whole run (fixes.NewDefaultFixes()), so the options left behind by one file are the
+   options the next file starts with.  The state is modelled explicitly: Fix is a function of
+   (options, candidate) returning the new options.  The parser and OPA's formatter are oracles. *)
+
+(* ast.RegoVersion (in the order of the Go constants: Undefined < V0 < V0CompatV1 < V1) *)
+Inductive rver := RvUndef | RvV0 | RvV0CompatV1 | RvV1.
+
+Definition rver_eqb (a b : rver) : bool :=
+  match a, b with
+  | RvUndef, RvUndef | RvV0, RvV0 | RvV0CompatV1, RvV0CompatV1 | RvV1, RvV1 => true
+  | _, _ => false
+  end.
+
+Definition rver_rank (v : rver) : nat :=
+  match v with RvUndef => 0 | RvV0 => 1 | RvV0CompatV1 => 2 | RvV1 => 3 end.
+
+(* fixes.FixCandidate: RegoVersion is the version configured for the file (project roots), RvUndef
+   when nothing is configured and the version has to be detected by parsing *)
+Record fmt_cand := { fc_name : str; fc_contents : str; fc_version : rver }.
+
+(* format.Opts of the instance: RegoVersion, and the fields Fix never writes (IgnoreLocations,
+   DropV0Imports, ParserOptions) as one opaque number *)
+Record fmt_state := { fs_version : rver; fs_other : N }.
+
+(* error (parse failure, formatter failure, no file name) / nothing to do / new contents *)
+Inductive fmt_out := FmtErr | FmtNone | FmtChanged (c : str).
+
+(* the version to format for: a v0 module is written in the syntax valid in v0 and v1
+   (import rego.v1); every other version is the version of the module itself *)
+Definition fmt_target (module_version : rver) : rver :=
+  match module_version with RvV0 => RvV0CompatV1 | v => v end.
+
+Section FmtFix.
+  (* parse.ModuleWithOpts(filename, contents, popts) where popts.RegoVersion is the configured
+     version (RvUndef: the v1 parser is tried, then the v0 parser): None when parsing fails, else
+     module.RegoVersion() *)
+  Variable parse_module : rver -> str -> str -> option rver.
+  (* format.AstWithOpts(module, opts): opts.RegoVersion, the other options, and the module, which is
+     determined by (configured version, filename, contents); None when it fails *)
+  Variable format_ast : rver -> N -> rver -> str -> str -> option str.
+
+  Definition fmt_fix (st : fmt_state) (c : fmt_cand) : fmt_state * fmt_out :=
+    match fc_name c with
+    | [] => (st, FmtErr)
+    | _ :: _ =>
+      match parse_module (fc_version c) (fc_name c) (fc_contents c) with
+      | None => (st, FmtErr)
+      | Some mv =>
+          let st' := {| fs_version := fmt_target mv; fs_other := fs_other st |} in
+          (st', match format_ast (fs_version st') (fs_other st') (fc_version c) (fc_name c) (fc_contents c) with
+                | None => FmtErr
+                | Some out => if str_eqb out (fc_contents c) then FmtNone else FmtChanged out
+                end)
+      end
+    end.
+
+  (* one instance used for a list of files, in that order: the result for every file *)
+  Fixpoint fmt_run (st : fmt_state) (cs : list fmt_cand) : list fmt_out :=
+    match cs with
+    | [] => []
+    | c :: t => snd (fmt_fix st c) :: fmt_run (fst (fmt_fix st c)) t
+    end.
+
+  (* regression variant (NOT the code): the version found in the options is kept unless the module
+     has a newer one - "the options give the oldest version to format for".  With a shared instance
+     this makes the version a high-water mark of the run. *)
+  Definition fmt_fix_keep_newest (st : fmt_state) (c : fmt_cand) : fmt_state * fmt_out :=
+    match fc_name c with
+    | [] => (st, FmtErr)
+    | _ :: _ =>
+      match parse_module (fc_version c) (fc_name c) (fc_contents c) with
+      | None => (st, FmtErr)
+      | Some mv =>
+          let v := if Nat.ltb (rver_rank (fs_version st)) (rver_rank mv) then mv else fs_version st in
+          let st' := {| fs_version := fmt_target v; fs_other := fs_other st |} in
+          (st', match format_ast (fs_version st') (fs_other st') (fc_version c) (fc_name c) (fc_contents c) with
+                | None => FmtErr
+                | Some out => if str_eqb out (fc_contents c) then FmtNone else FmtChanged out
+                end)
+      end
+    end.
+
+  Fixpoint fmt_run_keep_newest (st : fmt_state) (cs : list fmt_cand) : list fmt_out :=
+    match cs with
+    | [] => []
+    | c :: t => snd (fmt_fix_keep_newest st c) :: fmt_run_keep_newest (fst (fmt_fix_keep_newest st c)) t
+    end.
+End FmtFix.
+
 (* ------------------------------------------------------------------ rule-side column sources *)
 
 Definition is_blank (c : N) : bool := (c =? SP) || (c =? TAB).
